@@ -587,12 +587,47 @@ def d6_blocks(ctx, rep):
                                 rep.bad('D6.blocks', m, st, why, construct=cons)
                             else:
                                 rep.undecided('D6.blocks', m, st, why, construct=cons)
+    # chunked *reads* anywhere in the package: [f(x[i * K:(i + 1) * K]) for i in range(E)] must visit every entry of x
+    for m in sorted(prog.functions.values(), key=lambda f: f.qualname):
+        nf = None
+        gens = []
+        for x in ast.walk(m.node):
+            if isinstance(x, (ast.ListComp, ast.GeneratorExp)) and len(x.generators) == 1 and isinstance(x.generators[0].target, ast.Name):
+                gens.append((x.generators[0].target.id, x.generators[0].iter, x.elt, x))
+            elif isinstance(x, ast.For) and isinstance(x.target, ast.Name):
+                gens.append((x.target.id, x.iter, x, x))
+        for iv, it, body, node in gens:
+            if not (isinstance(it, ast.Call) and call_name(it) == 'range' and it.args):
+                continue
+            for sub in ast.walk(body):
+                if not (isinstance(sub, ast.Subscript) and isinstance(sub.ctx, ast.Load) and isinstance(sub.value, ast.Name) and isinstance(sub.slice, ast.Slice)
+                        and sub.slice.lower is not None and sub.slice.upper is not None and sub.slice.step is None):
+                    continue
+                if not any(isinstance(y, ast.Name) and y.id == iv for y in ast.walk(sub.slice.lower)):
+                    continue
+                src = sub.value.id
+                if (m.qualname, src, node.lineno) in seen:
+                    continue
+                seen.add((m.qualname, src, node.lineno))
+                nf = nf or NF(prog, m)
+                rest = any(isinstance(y, ast.Subscript) and isinstance(y.value, ast.Name) and y.value.id == src and isinstance(y.slice, ast.Slice)
+                           and y.slice.upper is None and y.slice.lower is not None and y is not sub for y in ast.walk(m.node))
+                verdict, why = _block_coverage(nf, it, iv, sub.slice.lower, sub.slice.upper, None, m, node, src, remainder_present=rest)
+                if verdict is None:
+                    continue     # not a block walk this rule models
+                n_sites += 1
+                cons = f'{m.short}: chunks of `{src}`'
+                if verdict:
+                    rep.ok('D6.blocks', m, sub, why.replace('cover the buffer', f'cover `{src}`'), construct=cons)
+                else:
+                    rep.bad('D6.blocks', m, sub, why.replace('nothing fills the rest', 'nothing visits the rest').replace(f'the last entries of `{src}` keep their initial value',
+                            f'the last entries of `{src}` are silently dropped from the result'), construct=cons)
     if n_sites == 0:
         rep.ok('D6.blocks', prog.cls(UNI).methods['percent_point'], 'vectorised methods', 'no vectorised distribution method fills its result block by block',
                construct='block coverage')
 
 
-def _block_coverage(nf, it, iv, lo, hi, size, m, lp, buf):
+def _block_coverage(nf, it, iv, lo, hi, size, m, lp, buf, remainder_present=None):
     """(True | False | None, text) for blocks [lo(i), hi(i)) with i in range(...) over a buffer of length `size`."""
     def N(src):
         return nf.nf(ast.parse(src, mode='eval').body)
@@ -630,7 +665,7 @@ def _block_coverage(nf, it, iv, lo, hi, size, m, lp, buf):
             after = [x for x in walk_no_nested(m.node) if isinstance(x, ast.Assign) and isinstance(x.targets[0], ast.Subscript)
                      and isinstance(x.targets[0].value, ast.Name) and x.targets[0].value.id == buf and x.lineno > lp.end_lineno
                      and isinstance(x.targets[0].slice, ast.Slice) and x.targets[0].slice.upper is None]
-            if after:
+            if after or remainder_present:
                 return True, f'{Etxt} full blocks and a remainder block after the loop'
             return False, (f'the loop runs {Etxt} times over blocks of {ksrc} entries and nothing fills the rest: when the number of points is not a multiple of '
                            f'{ksrc}, the last entries of `{buf}` keep their initial value')
@@ -765,7 +800,16 @@ def d4(ctx, rep):
         if isinstance(v, ast.UnaryOp) and isinstance(v.op, ast.Invert) and one and zero:
             valid = (s.targets[0].id, s)
     if not (one and zero and valid):
-        rep.undecided('D4.quantile', m, m.node.name, 'end / valid masks not recognised', construct='masks')
+        # positive evidence: an end mask built with np.isclose and its default relative tolerance (1e-5 times the reference value)
+        loose = [s_ for s_ in assigns if isinstance(s_.value, ast.Call) and call_name(s_.value) in ('isclose',) and s_.value.args
+                 and isinstance(s_.value.args[0], ast.Name) and s_.value.args[0].id == up
+                 and (kwarg(s_.value, 'rtol', 2) is None or const_value(kwarg(s_.value, 'rtol', 2)) not in (0, 0.0))
+                 and len(s_.value.args) > 1 and const_value(s_.value.args[1]) not in (0, 0.0)]
+        if loose:
+            rep.bad('D4.quantile', m, loose[0], f'`{short(loose[0], 70)}`: np.isclose adds rtol * |reference| = 1e-5 to the tolerance, so every probability within 1e-5 of '
+                    f'{short(loose[0].value.args[1])} is treated as the end point and mapped to an infinite quantile', construct='masks')
+        else:
+            rep.undecided('D4.quantile', m, m.node.name, 'end / valid masks not recognised', construct='masks')
         return
     o, z, va = one[1].value, zero[1].value, valid[1].value
     rep.check('D4.quantile', m, one[1], isinstance(o.ops[0], ast.GtE) and one_minus_eps(o.comparators[0]), 'upper mask = U >= 1 - EPSILON', 'upper mask is not U >= 1 - EPSILON',
